@@ -359,3 +359,13 @@ func NoteAccess(addr uintptr, site string, write bool) {
 		r.access(addr, site, write)
 	}
 }
+
+// MP notes an access to the map m (element read/write, delete, range) and returns m.
+func MP[M ~map[K]V, K comparable, V any](m M, site string, write bool) M {
+	if m != nil {
+		if r := active(); r != nil && r.race != nil {
+			r.access(reflect.ValueOf(m).Pointer(), site, write)
+		}
+	}
+	return m
+}
